@@ -30,6 +30,7 @@ type sym struct {
 	op          string          // kOp, kIONum, kHere: operator text
 	num         string          // kIONum / numbered here-doc: the number
 	body        string          // kHere: the body the renderer writes (without the delimiter line)
+	inner       []string        // kWord: texts of the comments the word's substitutions contain, in order
 	delim       string          // kHere: delimiter after quote removal
 	strip       bool            // kHere: <<-
 	quotedDelim bool            // kHere: some part of the delimiter is quoted
@@ -108,6 +109,11 @@ func init() {
 	add(word("$0", wPE("0")))
 	add(word("${v}", wPEB("v", "", nil)))
 	add(word("${10}", wPEB("10", "", nil)))
+	// positional parameters whose number does not fit an int32 / int64 / uint64
+	for _, n := range []string{"4294967296", "9223372036854775807", "9223372036854775808", "18446744073709551615", "99999999999999999999"} {
+		add(word("${"+n+"}", wPEB(n, "", nil)))
+	}
+	add(word("${9223372036854775808:-w}", wPEB("9223372036854775808", ":-", ast.Word{wLit("w")})))
 	add(word("${#v}", wPEB("v", "#", nil)))
 	add(word("${#}", wPEB("#", "", nil)))
 	add(word("${##}", wPEB("#", "#", nil)))
@@ -122,6 +128,12 @@ func init() {
 	add(word("$(c)", wCS(true, simpleCmd("c"))))
 	add(word("$(c d)", wCS(true, simpleCmd("c", "d"))))
 	add(word("`c`", wCS(false, simpleCmd("c"))))
+	// two-character operators inside substitutions
+	andOr := func(op string) ast.Command {
+		return &ast.AndOrList{Pipeline: &ast.Pipeline{Cmd: simpleCmd("a")}, List: []*ast.AndOr{{Op: op, Pipeline: &ast.Pipeline{Cmd: simpleCmd("b")}}}}
+	}
+	add(word("$(a && b)", wCS(true, andOr("&&"))))
+	add(word("`a || b`", wCS(false, andOr("||"))))
 	add(word("$((1))", wAE(wLit("1"))))
 	add(word("$((1+2))", wAE(wLit("1+2"))))
 	add(word("a$v", wLit("a"), wPE("v")))
@@ -129,6 +141,17 @@ func init() {
 	add(word("$v$w", wPE("v"), wPE("w")))
 	add(word(`a"d"`, wLit("a"), wDQ(wLit("d"))))
 	add(word("a$(c)", wLit("a"), wCS(true, simpleCmd("c"))))
+	// comments inside substitutions (they are returned with the command's comments, in source order)
+	for _, cw := range []sym{
+		word("$(b #k\nc)", wCS(true, simpleCmd("b"), simpleCmd("c"))),
+		word("`b #k\nc`", wCS(false, simpleCmd("b"), simpleCmd("c"))),
+		word("\"$(b #k\nc)\"", wDQ(wCS(true, simpleCmd("b"), simpleCmd("c")))),
+		word("$(($(b #k\nc) + 1))", wAE(wCS(true, simpleCmd("b"), simpleCmd("c")), wLit("+"), wLit("1"))),
+		word("${v:-$(b #k\nc)}", wPEB("v", ":-", ast.Word{wCS(true, simpleCmd("b"), simpleCmd("c"))})),
+	} {
+		cw.inner = []string{"k"}
+		add(cw)
+	}
 	// arithmetic expressions made of several parts (multi-byte text next to an expansion, blanks between the parts)
 	add(word("$((é+$v))", wAE(wLit("é+"), wPE("v"))))
 	add(word("$((1+$v))", wAE(wLit("1+"), wPE("v"))))
@@ -161,6 +184,10 @@ func init() {
 	add(word("'é\nq'b", wSQ("é\nq"), wLit("b")))
 	add(word("a\\\nb", wLit("a"), wLit("b"))) // line continuation inside a word
 	add(word("$(b\nc)", wCS(true, simpleCmd("b"), simpleCmd("c"))))
+	add(word("`b\nc`", wCS(false, simpleCmd("b"), simpleCmd("c"))))
+	add(word("\"$(b\nc)\"", wDQ(wCS(true, simpleCmd("b"), simpleCmd("c")))))
+	add(word("$(($(b\nc) + 1))", wAE(wCS(true, simpleCmd("b"), simpleCmd("c")), wLit("+"), wLit("1"))))
+	add(word("${v:-$(b\nc)}", wPEB("v", ":-", ast.Word{wCS(true, simpleCmd("b"), simpleCmd("c"))})))
 	add(sym{text: "((1 +\n2))", kind: kArith, parts: func() ast.Word { return ast.Word{wLit("1"), wLit("+"), wLit("2")} }})
 	add(word("x=$v", wLit("x="), wPE("v")))
 	add(word("x='q'", wLit("x="), wSQ("q")))
@@ -182,6 +209,7 @@ func init() {
 	add(here("<<", "G", ast.Word{wLit("G")}, "G", "${v\n", false))
 	add(here("<<", "'G'", ast.Word{wSQ("G")}, "G", "${v\n", true))
 	add(here("<<", "H", ast.Word{wLit("H")}, "H", "a`b\n", false))
+	add(here("<<", "I", ast.Word{wLit("I")}, "I", "a$v `c` \\$\n", false)) // unquoted delimiter, a body full of expansions
 	h3 := here("<<", "E", ast.Word{wLit("E")}, "E", "x\n", false)
 	h3.text, h3.num = "3<<E", "3"
 	add(h3)
